@@ -193,6 +193,10 @@ class CopyNative(Contract):
         for kind in ("points", "curve", "grid2d"):
             for target in ("same", "group", "other-ws", "other-ws-with-child"):
                 yield {"kind": kind, "target": target}
+        # a closed ring, copied with clear_cache=True (the source's cached arrays are released on the way)
+        for target in ("same", "other-ws"):
+            for parts_read in (False, True):
+                yield {"kind": "ring", "target": target, "clear_cache": True, "parts_read": parts_read}
             # the same copies after other entities with their own copy rules (surveys pass their own omit lists) were copied in this process
             for prelude in ("tem", "dcip", "tipper", "drillhole"):
                 yield {"kind": kind, "target": "other-ws", "prelude": prelude}
@@ -217,6 +221,10 @@ class CopyNative(Contract):
                 elif case["kind"] == "curve":
                     obj = Curve.create(ws, name="o", vertices=np.arange(12.0).reshape(4, 3))
                     n = 4
+                elif case["kind"] == "ring":
+                    ang = np.arange(4) * np.pi / 2
+                    obj = Curve.create(ws, name="o", vertices=np.c_[np.cos(ang), np.sin(ang), np.zeros(4)], cells=np.array([[0, 1], [1, 2], [2, 3], [3, 0]], dtype="uint32"))
+                    n = 4
                 else:
                     obj = Grid2D.create(ws, name="o", u_count=2, v_count=2, u_cell_size=1.0, v_cell_size=2.0, origin=[1.0, 2.0, 3.0], rotation=30.0)
                     n = 4
@@ -233,9 +241,12 @@ class CopyNative(Contract):
             before_digest = _digest(src_path)
             with Workspace(src_path, mode="r+") as ws:
                 obj = ws.get_entity("o")[0]
+                if case.get("parts_read"):
+                    obj.parts
                 before = _snap(obj)
+                ckw = {"clear_cache": True} if case.get("clear_cache") else {}
                 if case["target"] == "same":
-                    new = obj.copy()
+                    new = obj.copy(**ckw)
                     dst = None
                 elif case["target"] == "group":
                     new = obj.copy(parent=ws.get_entity("g")[0])
@@ -246,11 +257,13 @@ class CopyNative(Contract):
                         holder = Points.create(dst, name="holder", vertices=np.zeros((n, 3)))
                         obj.children[0].copy(parent=holder) if hasattr(obj.children[0], "values") else None
                         [ch for ch in obj.children if getattr(ch, "name", "") == "azimuth"][0].copy(parent=holder)
-                    new = obj.copy(parent=dst)
+                    new = obj.copy(parent=dst, **ckw)
                 got = _snap(new)
                 for k in before:
                     if before[k] != got[k]:
                         return f"copy differs from its source in {k}: {got[k]} vs {before[k]} ({case})"
+                if _snap(obj) != before:
+                    return f"the source entity changed while it was copied: {[k for k in before if _snap(obj)[k] != before[k]]} ({case})"
                 # edits of the copy must not show through
                 new.metadata["info"]["nested"].append(99)
                 if "99" in repr(obj.metadata):
@@ -419,3 +432,95 @@ class CellCopyTargets(ObjectCopyTargets):
 
 
 CONTRACTS = [CopyPropertyGroups, ObjectCopyTargets, CopyNative, GroupCopyNative]  # Grid/Cell variants: path explosion / different shape, left to the native part
+
+
+class CopyEqualsByKind(Contract):
+    """A copy equals its source in every attribute of the class's attribute map (set to non-default
+    values first), in its geometry arrays and in the values of every data child -- for every kind of
+    object with its own copy rules -- and the copy is an entity in its own right: it can be edited
+    (a new depth log on a copied drillhole, new values on its data) without the source noticing."""
+    target = "geoh5py/objects/object_base.py::ObjectBase.copy"
+    variant = "copy-equals-source-by-kind"
+    symbolic = False
+    has_native = True
+    native_shards = 4
+    props = ("C12",)
+    bounded_scope = "one object per kind in {points, curve, surface, grid2d, geoimage, block model, octree, drillhole, airborne TEM pair, DC/IP pair, tipper pair} with data and non-default scalar attributes (flags flipped, drillhole cost / planning / end_of_hole beyond the last survey); copy into {same workspace, another workspace}; attribute-map attributes, geometry arrays, data values compared; then the copy is edited and the source re-compared (exhaustive over 11 kinds x 2 targets)"
+
+    SKIP = {"uid", "property_groups", "last_focus", "clipping_ids: list | None", "name"}
+    ARRAYS = ("vertices", "cells", "surveys", "octree_cells", "u_cell_delimiters", "v_cell_delimiters", "z_cell_delimiters", "layers", "prisms", "centroids")
+
+    def native_cases(self, tier, rng):
+        from contracts.copy_wf import KINDS
+
+        for kind in KINDS:
+            if kind == "group":
+                continue
+            for target in ("same", "other"):
+                yield {"kind": kind, "target": target}
+
+    @classmethod
+    def _describe(cls, ent):
+        d = {}
+        for attr in sorted(set(type(ent)._attribute_map.values()) - cls.SKIP):
+            try:
+                v = getattr(ent, attr)
+            except Exception as exc:
+                v = f"<{type(exc).__name__}>"
+            d[attr] = np.asarray(v).tolist() if isinstance(v, (np.ndarray, np.void)) else (v if isinstance(v, (int, float, str, bool, type(None), list, tuple)) else repr(v))
+        for attr in cls.ARRAYS:
+            if hasattr(type(ent), attr):
+                try:
+                    v = getattr(ent, attr)
+                except Exception as exc:
+                    v = f"<{type(exc).__name__}>"
+                d["array:" + attr] = None if v is None else (v if isinstance(v, str) else np.asarray(v).tolist())
+        for c in getattr(ent, "children", []):
+            if hasattr(c, "values") and hasattr(c, "association"):
+                v = c.values
+                d["data:" + c.name] = None if v is None else (v if isinstance(v, str) else np.asarray(v).tolist())
+        return {k: repr(v) for k, v in d.items()}  # text form: NaN entries compare equal
+
+    def native_check(self, case):
+        from contracts.copy_wf import build
+        from geoh5py.workspace import Workspace
+
+        d = tempfile.mkdtemp()
+        try:
+            with Workspace.create(os.path.join(d, "src.geoh5")) as ws, Workspace.create(os.path.join(d, "dst.geoh5")) as other:
+                obj = build(ws, case["kind"])
+                for flag in ("allow_move", "allow_rename", "visible", "public", "partially_hidden"):
+                    setattr(obj, flag, not getattr(obj, flag))
+                if case["kind"] == "drillhole":
+                    obj.cost, obj.planning, obj.end_of_hole = 1234.5, "Ongoing", 150.0  # the hole goes on below its last survey station
+                before = self._describe(obj)
+                new = obj.copy(parent=other if case["target"] == "other" else None)
+                got = self._describe(new)
+                for k in before:
+                    if before[k] != got.get(k):
+                        return f"the copy of a {case['kind']} differs from its source in {k}: {got.get(k)!r} instead of {before[k]!r} ({case})"
+                if self._describe(obj) != before:
+                    return f"copying a {case['kind']} changed the source ({case})"
+                # the copy is edited like any entity
+                try:
+                    if case["kind"] == "drillhole":
+                        new.add_data({"extra_log": {"depth": np.array([5.0, 15.0, 55.0]), "values": np.arange(3.0)}})
+                        seen = np.asarray(new.get_data("extra_log")[0].values, dtype=float)
+                        if len(seen) != len(new.vertices) or np.isfinite(seen).sum() != 3:
+                            return f"a depth log added to the copy of a drillhole holds {seen.tolist()} for {len(new.vertices)} vertices ({case})"
+                    for c in new.children:
+                        v = getattr(c, "values", None)
+                        if isinstance(v, np.ndarray) and v.dtype.kind == "f" and len(v):
+                            c.values = v + 1000.0
+                    new.allow_delete = not new.allow_delete
+                except Exception as exc:
+                    return f"editing the copy of a {case['kind']} failed: {type(exc).__name__}: {exc} ({case})"
+                after = self._describe(obj)
+                if after != before:
+                    return f"editing the copy of a {case['kind']} changed the source's {[k for k in before if after.get(k) != before[k]]} ({case})"
+            return None
+        finally:
+            shutil.rmtree(d, ignore_errors=True)
+
+
+CONTRACTS = CONTRACTS + [CopyEqualsByKind]
